@@ -156,7 +156,7 @@ func (c *Ctx) Effect(fn *ssa.Function, e0 Eff) int {
 		}
 		ok := true
 		for _, r := range e0.Req {
-			if !HasGuard(e.Call.Block(), r) {
+			if !HasGuard(e.Call.Block(), r) && !(!e0.Exact && edgeEnters(fn, r, e.Call.Block())) {
 				ok = false
 			}
 		}
@@ -692,4 +692,23 @@ func (c *Ctx) MapStoreKeys(fn *ssa.Function, mapGlob string, want []string, why 
 	for g, ins := range got {
 		c.Fail("K12", fnName, "only the listed keys are recorded in `"+mapGlob+"`", c.At(ins), "unexpected key `"+short(g, 200)+"` ("+why+")")
 	}
+}
+
+// edgeEnters: the edge taken when cond holds leads straight into block b (directly, or through blocks that only jump):
+// the effect in b happens whenever cond holds, although b is also entered over other edges (`if c1 || c2 { effect }`).
+func edgeEnters(fn *ssa.Function, cond Cond, b *ssa.BasicBlock) bool {
+	for _, e := range CondEdges(fn, cond) {
+		t := e.To()
+		for i := 0; i < 4 && t != nil; i++ {
+			if t == b {
+				return true
+			}
+			if len(t.Instrs) == 1 && len(t.Succs) == 1 {
+				t = t.Succs[0]
+				continue
+			}
+			break
+		}
+	}
+	return false
 }
